@@ -73,7 +73,27 @@ func c17Structured() []string {
 
 func TestVerif_C17(t *testing.T) {
 	res := newVerifResult("login_destination strings: exhaustive over {/ \\\\ . a TAB ? # % : @}^<=L (L=4 quick, 5 thorough) through getLoginDestination+http.Redirect, a structured adversarial list and seeded random strings through POST /api/v0/login (text/html); non-trivial = the filter accepted the string (redirect target differs from the profile page); distinct by (input, Location)")
+	// a fake OAuth2 provider for the federated-login flow
+	provider := httptest.NewServer(http.HandlerFunc(func(w http.ResponseWriter, r *http.Request) {
+		w.Header().Set("Content-Type", "application/json")
+		switch r.URL.Path {
+		case "/token":
+			w.Write([]byte(`{"access_token":"tok","token_type":"bearer","expires_in":3600}`))
+		case "/userinfo":
+			w.Write([]byte(`{"login":"alice"}`))
+		default:
+			w.WriteHeader(404)
+		}
+	}))
+	defer provider.Close()
 	env := verifSetup(t, func(c *AppConfigFile, dir string) {
+		c.Oauth2.Enabled = true
+		c.Oauth2.ClientID = "keymaster"
+		c.Oauth2.ClientSecret = "secret"
+		c.Oauth2.AuthUrl = provider.URL + "/auth"
+		c.Oauth2.TokenUrl = provider.URL + "/token"
+		c.Oauth2.UserinfoUrl = provider.URL + "/userinfo"
+		c.Oauth2.Scopes = "openid"
 		c.Base.AllowedAuthBackendsForWebUI = []string{"password"}
 		c.Base.AllowedAuthBackendsForCerts = []string{"U2F"}
 		c.Base.PasswordAttemptGlobalBurstLimit = 1000000
@@ -150,6 +170,72 @@ func TestVerif_C17(t *testing.T) {
 			continue
 		}
 		record(s, rr.Header().Get("Location"), "loginHandler", true)
+	}
+	// (3) federated login: begin -> (optionally begin again, with the setup cookie of the first
+	// attempt) -> provider callback; the destination is parked server side in between
+	oauthBegin := func(dest string, setup *http.Cookie) (cookie *http.Cookie, st string, ok bool) {
+		form := url.Values{}
+		form.Set("login_destination", dest)
+		req := verifNewRequest("GET", oauth2LoginBeginPath, form)
+		if setup != nil {
+			req.AddCookie(setup)
+		}
+		rr, _ := env.serve(req)
+		if rr.Code != 302 {
+			return nil, "", false
+		}
+		u, err := url.Parse(rr.Header().Get("Location"))
+		if err != nil {
+			return nil, "", false
+		}
+		cookie = setup
+		for _, c := range rr.Result().Cookies() {
+			if c.Name == redirCookieName {
+				cookie = c
+			}
+		}
+		return cookie, u.Query().Get("state"), cookie != nil
+	}
+	oauthCallback := func(cookie *http.Cookie, st string) (string, bool) {
+		q := url.Values{}
+		q.Set("state", st)
+		q.Set("code", "abc")
+		req := verifNewRequest("GET", redirectPath, q)
+		req.AddCookie(&http.Cookie{Name: cookie.Name, Value: cookie.Value})
+		rr, _ := env.serve(req)
+		if rr.Code != 302 {
+			return "", false
+		}
+		return rr.Header().Get("Location"), true
+	}
+	oauthDests := c17Structured()
+	for i, d := range oauthDests {
+		if c, st, ok := oauthBegin(d, nil); ok {
+			if loc, ok := oauthCallback(c, st); ok {
+				record(d, loc, "oauth2:begin,callback", true)
+			} else {
+				t.Errorf("oauth2 callback failed for %q", d)
+			}
+		} else {
+			t.Errorf("oauth2 begin failed for %q", d)
+			res.hit(verifHit{Key: "C17:harness:oauth2-begin", Oracle: "harness", What: "federated login could not be started", Case: d})
+		}
+		// restart: a harmless first attempt, then a second begin carrying the first setup cookie
+		c1, st1, ok1 := oauthBegin("/profile/ok", nil)
+		if !ok1 {
+			continue
+		}
+		c2, st2, ok2 := oauthBegin(d, c1)
+		if ok2 {
+			if loc, ok := oauthCallback(c2, st2); ok {
+				record(d, loc, "oauth2:begin,begin+cookie,callback", true)
+			}
+		}
+		if i%4 == 0 && (c2 == nil || c2.Value != c1.Value) {
+			if loc, ok := oauthCallback(c1, st1); ok {
+				record("/profile/ok", loc, "oauth2:first-attempt-callback", true)
+			}
+		}
 	}
 	// Coq case file
 	var sb strings.Builder
